@@ -3,6 +3,7 @@
 package main
 
 import (
+	"encoding/json"
 	"flag"
 	"fmt"
 	"os"
@@ -25,6 +26,7 @@ func main() {
 		tags    = flag.String("tags", "", "extra build tags")
 		goarch  = flag.String("goarch", "", "GOARCH for loading")
 		tool    = flag.String("toolchain", "local", "local | auto")
+		jsonOut = flag.Bool("json", false, "print the obligations of -p as JSON and exit 0 (used by the thorough tier for child analyses)")
 		specs   = flag.Bool("specs", false, "print the registered property specifications as JSON (used to generate MANIFEST.json)")
 	)
 	flag.Parse()
@@ -92,6 +94,22 @@ func main() {
 	if *prop == "" {
 		flag.Usage()
 		os.Exit(2)
+	}
+	if *jsonOut {
+		type out struct {
+			Error string       `json:"error,omitempty"`
+			Obls  []Obligation `json:"obligations"`
+		}
+		var o out
+		p, err := loadProgram(cfg)
+		if err != nil {
+			o.Error = err.Error()
+		} else {
+			o.Obls = evalProperty(p, *prop).Obls
+		}
+		b, _ := json.Marshal(o)
+		fmt.Println(string(b))
+		return
 	}
 	opts := RunOptions{Tier: *tier, VerifDir: vdir, WriteEvidence: !*noEvid, ListAll: *listObl, Start: start}
 	os.Exit(runProperties(cfg, *prop, opts))
